@@ -65,9 +65,45 @@ def model_gram(cases, tag):
     return out
 
 
+def weak_constraints_large_cell(ctx):
+    """A sum-rule row with a single surviving element (the self-term of an atom without neighbour inside the cutoff) is the weakest
+    constraint there is: eigenvalue 1 - 1/N of the matrix handed to the eigen-solver.  On a 648-atom supercell (216 lattice points)
+    1/N = 1.5e-3 is still far from every tolerance; any extra factor (1/n_lp ...) would bring it below np.isclose's 1e-5."""
+    from symfc import Symfc
+    from symfc.utils.utils import SymfcAtoms
+
+    prim_cell = np.array([[4.2, 0.3, 0.1], [0.2, 4.6, 0.4], [0.5, 0.1, 5.0]])
+    prim_pos = np.array([[0.10, 0.12, 0.08], [0.33, 0.27, 0.21], [0.62, 0.66, 0.58]])     # A-B bonded (1.3), C isolated (> 2.6)
+    dims = (6, 6, 6)
+    pos, nums = [], []
+    for p_, z_ in zip(prim_pos, (6, 8, 18)):
+        for i_ in range(dims[0]):
+            for j_ in range(dims[1]):
+                for k_ in range(dims[2]):
+                    pos.append([(p_[0] + i_) / dims[0], (p_[1] + j_) / dims[1], (p_[2] + k_) / dims[2]])
+                    nums.append(z_)
+    at = SymfcAtoms(numbers=nums, scaled_positions=np.array(pos), cell=prim_cell * np.array(dims)[:, None])
+    N = len(nums)
+    b = Symfc(at, cutoff={2: 2.0}).compute_basis_set(orders=[2]).basis_set[2]
+    nb = b.basis_set.shape[1]
+    ctx.case({"cell": "triclinic ABC 6x6x6 (648 atoms), cutoff {2: 2.0}", "n_basis": int(nb)}, nontrivial=nb > 0)
+    ctx.count("weak-constraints-large-cell")
+    if nb == 0:
+        return
+    E = np.asarray(b.compression_matrix @ b.basis_set).reshape(N, N, 3, 3, nb)
+    worst = float(max(np.abs(E.sum(axis=0)).max(), np.abs(E.sum(axis=1)).max()) / max(np.abs(E).max(), 1e-300))
+    if worst > 1e-8:
+        ctx.fail("oracle", "C03/oracle/basis/weak-constraint", f"648-atom triclinic supercell (3 atoms x 6x6x6), cutoff {{2: 2.0}} (the third atom has no neighbour inside it): an expanded order-2 basis vector violates the "
+                 f"translational sum rule by {worst:.2e} of its largest element ({nb} basis vectors)",
+                 replay={"prim_cell": prim_cell.tolist(), "prim_positions": prim_pos.tolist(), "numbers": [6, 8, 18], "supercell": list(dims), "cutoff": {"2": 2.0}, "order": 2}, has_input=True)
+
+
 def check(ctx):
     rng = np.random.default_rng(ctx.seed)
     rotational_option(ctx, np.random.default_rng(ctx.seed + 61))
+    if not getattr(ctx, "_weak_done", False):
+        ctx._weak_done = True
+        weak_constraints_large_cell(ctx)
     from bigcell import check_bigcells
     check_bigcells(ctx, "C03", np.random.default_rng(ctx.seed + 2002))   # supercells of 36-216 atoms
     from o1 import check_o1
